@@ -122,3 +122,8 @@ proof! {
         cover!(true);
     }
 }
+
+// A sink that keeps the bytes outside the context (so that the context, with its string table,
+// can be `mem::forget`-ten instead of dropped) was tried for the two `tier=off` harnesses above:
+// both still time out at 1000 s - the cost is in the second table lookup with a symbolic
+// character, not in the drop glue.
